@@ -1,7 +1,7 @@
 """VM state-restoration, timeout and import rules (C04, C07, C08, C18)."""
 from ..engine import Broken, Finding, RuleResult, require
 from ..mir import line_of, op_base, op_const, op_int, op_local, op_place, place_fields
-from .common import calls_named, rv_variant, self_field_root, try_sites
+from .common import always_err, calls_named, rv_variant, self_field_root, try_sites
 
 VM = "koto_runtime::KotoVm::"
 DEREF = ("ops::deref::Deref::deref", "ops::deref::DerefMut::deref_mut", "Deref>::deref", "DerefMut>::deref_mut")
@@ -797,7 +797,7 @@ def _reaches_only_err(cx, fn, cfg, start):
             if cls.startswith("call:"):
                 nm = cls[5:]
                 t = cx.F.fns.get(nm)
-                if t is not None and _always_err(cx, t):
+                if t is not None and always_err(cx, t):
                     continue
                 if "from_residual" in nm:
                     continue
@@ -808,29 +808,3 @@ def _reaches_only_err(cx, fn, cfg, start):
     return True
 
 
-_ALWAYS_ERR = {}
-
-
-def _always_err(cx, fn):
-    """does every return of fn assign an Err aggregate to _0 (error constructor helpers)"""
-    if fn.name in _ALWAYS_ERR:
-        return _ALWAYS_ERR[fn.name]
-    from ..mir import _block_ret_class
-    _ALWAYS_ERR[fn.name] = False
-    cfg = cx.cfg(fn)
-    ok = True
-    any_w = False
-    for b in cfg.reach:
-        cls = _block_ret_class(fn, b)
-        if cls is None:
-            continue
-        any_w = True
-        if cls == "err":
-            continue
-        if cls.startswith("call:"):
-            t = cx.F.fns.get(cls[5:])
-            if t is not None and t is not fn and _always_err(cx, t):
-                continue
-        ok = False
-    _ALWAYS_ERR[fn.name] = ok and any_w
-    return _ALWAYS_ERR[fn.name]
